@@ -139,7 +139,7 @@ func copyVal(v interface{}) interface{} {
 func (C12) CrashIsViolation() string { return "C12" }
 
 // RunTimeout implements core.CrashChecker (a run takes milliseconds).
-func (C12) RunTimeout() float64 { return 30 }
+func (C12) RunTimeout() float64 { return 60 }
 
 // HangNeedsLibraryFrame implements core.HangAttributor: only a child whose
 // goroutine dump shows library code computing counts; everything parked is
